@@ -434,17 +434,19 @@ func schedWorker(args []string) {
 type sensFile struct {
 	Path     string
 	Contents []string
+	Link     bool // the path is a symbolic link to a file, kept in a directory of its own, with that content
 }
 
 func c04Sensitivity(run *ev.Run, tier string) (collections int, pairs int64) {
 	big := strings.Repeat("z", 70*1024)
 	uni := []sensFile{
-		{"a", []string{"bc", "", "ab"}},
-		{"ab", []string{"c", "bc"}},
-		{"b", []string{"bc", "c"}},
-		{"d/a", []string{"bc", "x"}},
-		{"e/a", []string{"bc"}},
-		{"big", []string{big + "1", big + "2"}},
+		{"a", []string{"bc", "", "ab"}, false},
+		{"ab", []string{"c", "bc"}, false},
+		{"b", []string{"bc", "c"}, false},
+		{"d/a", []string{"bc", "x"}, false},
+		{"e/a", []string{"bc"}, false},
+		{"big", []string{big + "1", big + "2"}, false},
+		{"lnk", []string{"bc", "x"}, true},
 	}
 	root := filepath.Join(pool.Scratch, "sens")
 	type coll struct {
@@ -466,7 +468,13 @@ func c04Sensitivity(run *ev.Run, tier string) (collections int, pairs int64) {
 			f := uni[fi]
 			full := filepath.Join(root, f.Path)
 			os.MkdirAll(filepath.Dir(full), 0o755)
-			os.WriteFile(full, []byte(f.Contents[contents[k]]), 0o644)
+			if f.Link {
+				os.MkdirAll(filepath.Join(root, "_targets"), 0o755)
+				os.WriteFile(filepath.Join(root, "_targets", f.Path), []byte(f.Contents[contents[k]]), 0o644)
+				os.Symlink(filepath.Join("_targets", f.Path), full)
+			} else {
+				os.WriteFile(full, []byte(f.Contents[contents[k]]), 0o644)
+			}
 			files = append(files, full)
 			c := f.Contents[contents[k]]
 			if len(c) > 20 {
